@@ -82,7 +82,7 @@ let explain (seqs : z list list) : string =
 
 let verdict case impl =
   match case, impl with
-  | ["T"; _serial; _warn; threads; calls; _pace], [seqs; fin] ->
+  | ["T"; _serial; _warn; threads; calls; pace], [seqs; fin] ->
     let threads = int_of_shex threads and calls = int_of_shex calls in
     let seqs = List.map decode_stream (String.split_on_char ';' seqs) in
     let fin = z_of_hex fin in
@@ -91,9 +91,20 @@ let verdict case impl =
     else begin
       (* the main thread's final call is one more thread of the same generator *)
       let all = seqs @ [[fin]] in
-      if prop_ok all then
-        (if final_ok seqs fin then "ok"
-         else "diff model: the call made after joining all threads must exceed every value handed out (C18_inv), final=" ^ hex_of_z fin)
+      if prop_ok all then begin
+        if not (final_ok seqs fin) then
+          "diff model: the call made after joining all threads must exceed every value handed out (C18_inv), final=" ^ hex_of_z fin
+        else if pace = "4" then begin
+          (* two phases separated by a barrier: split every sequence at calls/2 *)
+          let split l =
+            let rec go k acc l = if k = 0 then (List.rev acc, l) else
+                match l with x :: r -> go (k - 1) (x :: acc) r | [] -> (List.rev acc, []) in
+            go (calls / 2) [] l in
+          let halves = List.map split seqs in
+          if phase_ok (List.map fst halves) (List.map snd halves) then "ok"
+          else "diff model: a value handed out after the barrier does not exceed every value handed out before it (C18_call_order)"
+        end else "ok"
+      end
       else "viol " ^ explain all
     end
   | ["B"; _serial; _warn; calls; _pace], [samples] ->
